@@ -1,0 +1,81 @@
+//go:build verif
+
+// Package verifdrv is the I/O shell shared by the verification drivers
+// (files named verif_driver_test.go, build tag verif). A driver reads one JSON
+// case per line from $VERIF_IN, runs the real code on it and writes one JSON
+// observation per line to $VERIF_OUT. Generation, models and comparison live
+// outside the repository.
+package verifdrv
+
+import (
+	"bufio"
+	"encoding/json"
+	"fmt"
+	"os"
+	"testing"
+)
+
+// Run feeds every case of $VERIF_IN to fn and writes fn's results to $VERIF_OUT.
+// A panic escaping fn is recorded as {"driver_panic": "..."} for that case.
+func Run(t *testing.T, fn func(raw json.RawMessage) any) {
+	in, out := os.Getenv("VERIF_IN"), os.Getenv("VERIF_OUT")
+	if in == "" || out == "" {
+		t.Skip("VERIF_IN/VERIF_OUT not set")
+	}
+	fi, err := os.Open(in)
+	if err != nil {
+		t.Fatal(err)
+	}
+	defer fi.Close()
+	fo, err := os.Create(out + ".tmp")
+	if err != nil {
+		t.Fatal(err)
+	}
+	w := bufio.NewWriter(fo)
+	sc := bufio.NewScanner(fi)
+	sc.Buffer(make([]byte, 1<<20), 1<<28)
+	n := 0
+	for sc.Scan() {
+		line := append([]byte(nil), sc.Bytes()...)
+		if len(line) == 0 {
+			continue
+		}
+		res := call(fn, line)
+		b, err := json.Marshal(res)
+		if err != nil {
+			t.Fatalf("case %d: cannot marshal observation: %v", n, err)
+		}
+		w.Write(b)
+		w.WriteByte('\n')
+		n++
+	}
+	if err := sc.Err(); err != nil {
+		t.Fatal(err)
+	}
+	w.Flush()
+	fo.Close()
+	if err := os.Rename(out+".tmp", out); err != nil {
+		t.Fatal(err)
+	}
+}
+
+func call(fn func(raw json.RawMessage) any, line []byte) (res any) {
+	defer func() {
+		if p := recover(); p != nil {
+			res = map[string]any{"driver_panic": fmt.Sprint(p)}
+		}
+	}()
+	return fn(json.RawMessage(line))
+}
+
+// Catch runs f and reports whether it panicked (and with what).
+func Catch(f func()) (panicked bool, val string) {
+	defer func() {
+		if p := recover(); p != nil {
+			panicked = true
+			val = fmt.Sprint(p)
+		}
+	}()
+	f()
+	return
+}
